@@ -143,11 +143,16 @@ where
     } else {
         &SESSION_GLOBALS
     };
-    if let Ok(mut guard) = mutex.lock() {
+    let res = if let Ok(mut guard) = mutex.lock() {
+        #[cfg(feature = "verif-hooks")]
+        crate::verif::interner_op();
         f(&mut guard)
     } else {
         panic!("Failed to acquire lock on SESSION_GLOBALS");
-    }
+    };
+    #[cfg(feature = "verif-hooks")]
+    crate::verif::interner_yield();
+    res
 }
 
 #[derive(Default, Copy, Clone, PartialEq, Hash, Eq, PartialOrd, Ord, Serialize, Deserialize)]
